@@ -105,7 +105,7 @@ def same_on(fi, fm, keys):
 
 class Stream:
     """Generates instances + compile cases, runs both sides, parses."""
-    def __init__(self, chk, tier, types, widths=(1, 2, 3), flavours=(0, 1, 2), ninst=None, with_viz=False, longarcs=False, stores=False):
+    def __init__(self, chk, tier, types, widths=(1, 2, 3), flavours=(0, 1, 2), ninst=None, with_viz=False, longarcs=False, stores=False, only_longarcs=False):
         self.chk = chk
         rng = Rng(chk.seed)
         n = ninst if ninst is not None else (150 if tier == "quick" else 1500)
@@ -113,7 +113,9 @@ class Stream:
         for i in range(n):
             r = rng.fork()
             kind = i % 5
-            if kind == 4 and longarcs:
+            if only_longarcs:
+                I = gen_layered(r, nvars=r.range(4, 6), per_layer=r.range(2, 4), depth_free=True, irrelevance=True, dominance=0)
+            elif kind == 4 and longarcs:
                 I = gen_layered(r, nvars=r.range(3, 5), per_layer=r.range(2, 4), depth_free=True, irrelevance=True, dominance=0)
             elif kind == 3:
                 I = gen_layered(r, nvars=r.range(2, 4), per_layer=2, dom_max=2, dominance=0)
@@ -527,8 +529,30 @@ def check_diagram(pid, tier):
     ninst = None
     if viz: ninst = 12 if tier == "quick" else 100
     widths = (1, 2, 3) if pid != "C13" else (1, 2, 3, 4, 5)
-    st = Stream(chk, tier, types=types, widths=widths, with_viz=viz, ninst=ninst, longarcs=(pid in ("C08", "C12", "C20")))
+    st = Stream(chk, tier, types=types, widths=widths, with_viz=viz, ninst=ninst, longarcs=(pid in ("C08", "C12", "C13", "C06", "C07", "C20")))
     results = st.run()
+    if not viz:
+        # second phase: the sub-problems the diagrams themselves hand out (cut-set nodes of the relaxed compilations) become roots; for the pooled
+        # flavour with long arcs these are sub-problems whose path is SHORTER than their depth (skipped variables carry no decision)
+        seen = set(); blocks2 = []; meta2 = []
+        probe = Stream(chk, tier, types=(1,), widths=(1, 2), flavours=(2, 0), ninst=(40 if tier == "quick" else 300), longarcs=True, only_longarcs=True)
+        for (I, rows) in probe.run():
+            lines = [I.line()]; metas = [None]
+            for meta, li, lm, case in rows:
+                for c in parse_cutset(parse_fields(li).get("CS")):
+                    if len(c["state"]) != 1: continue
+                    key = (I.line(), meta["flv"], c["depth"], c["state"][0], c["value"], tuple(c["path"]))
+                    if key in seen or len(lines) > 60: continue
+                    seen.add(key)
+                    root = (c["depth"], c["state"][0], c["value"], c["path"])
+                    for ct in types:
+                        for w in (1, 2):
+                            lines.append(mline(meta["flv"], ct, w, IMIN, 0, 0, 0, root))
+                            metas.append({"inst": -1, "root": root, "flv": meta["flv"], "ct": ct, "w": w, "lb": IMIN, "vstar": None, "phase2": True})
+            if len(lines) > 1: blocks2.append(lines); meta2.append((I, metas))
+        if blocks2:
+            probe.blocks = blocks2; probe.meta = meta2
+            results = results + probe.run()
     agree, dis = correspondence(chk, results, GATE[pid])
     total = sum(len(rows) for _, rows in results)
     stats = {}; nontriv = set(); samples = []
@@ -549,6 +573,7 @@ def check_diagram(pid, tier):
                 stats["layers_at_width"] += sum(1 for n in per_layer if n == meta["w"])
                 if "RELAX" in fi.get("LOG", "") or (pid == "C13" and any(n == meta["w"] for n in per_layer)): nontriv.add(case + I.line()[:40])
                 for (p, msg) in pf:
+                    if p == "C13" and I.notimp: continue      # C13 is stated for models in which every state is impacted by every variable
                     if p == pid:
                         fails.append((pid, "protocol", msg, {"instance": I.line(), "case": case, "flavour": FLV[meta["flv"]], "type": CT[meta["ct"]],
                                                              "width": meta["w"], "log": fi.get("LOG", "")[:1500]}))
